@@ -22,7 +22,7 @@ RULE = ("Stateful generation (Hypothesis RuleBasedStateMachine): a NetSpec rich 
         "interleaved pair gives the same digests on a shared network as on separate ones.  Non-trivial: a history in which one key was "
         "executed >= 2 times with at least one reuse after a different run; distinct by digest of (spec, history).")
 ASSUMPTIONS = ["a tracker / deadlock detector object is created per Simulation, as the documentation does"]
-TECHNIQUE = 'stateful property-based testing: Hypothesis rule-based machine generating histories of fresh / reused / bystander / interleaved runs; digests compared'
+TECHNIQUE = 'stateful property-based testing: Hypothesis rule-based machine generating histories of fresh / reused / bystander / interleaved / other-precision runs (digests compared), plus a differential check of the same run in fresh interpreters with and without a prelude of other simulations'
 WALL = {"quick": 150, "thorough": 540}
 
 ALLOWED = ["schedule", "sched_preempt", "slotted", "capacity", "priorities", "reneging", "batching", "cc_after", "cc_waiting", "discipline",
